@@ -355,3 +355,65 @@ def c19(ctx):
         out.append((lab, B.rule_B7(ctx, prog, lab)))
         out.append((lab, B.rule_B1(ctx, prog, lab, only_funcs=BIT_FUNCS)))
     return out
+
+
+@prop('C12', level='other',
+      explanation=('J1: every legal (SSE2, OpenMP, MMC, MZD_CACHE) combination x cache triples type-checks, mp.c and the scalar kernels included. '
+                   'J2: every function has the same effect summary (parameters written, non-cache globals written, origin of the result, parameters '
+                   'freed) in every configuration; only the allocator/cache layer is exempt. J3: the store-discipline (C1), family (B1/B2), '
+                   'validation (F1) and const-operand (A1) rules hold in every analysed configuration, i.e. the #if siblings the pinned suite never '
+                   'compiles obey the same rules as the ones it does. J4: interval analysis of the automatic table-parameter selection: k stays in '
+                   '[1, 16] for every cache triple.'),
+      not_decided='equality of computed values across regimes (value level)')
+def c12(ctx):
+    from . import configs as J, masks as M, families as B, contracts as CT, const_rules as CR
+    h = frontend.host_config()
+    if ctx.tier == 'thorough':
+        cfgs = frontend.legal_configs()
+        # plus the fallback triple (0,0,0) -> misc.h defaults
+        cfgs = cfgs + [frontend.with_caches(h, (0, 0, 0))]
+    else:
+        cfgs = [h, dict(h, sse2=0), frontend.thread_safe_configs()[0], frontend.openmp_configs()[0], frontend.with_caches(h, frontend.SMALL)]
+    out = [('all', J.rule_J1(ctx, cfgs)), ('all', J.rule_J2(ctx, cfgs))]
+    for cfg in cfgs:
+        prog = ctx.program(cfg)
+        if prog.errors:
+            continue
+        lab = _label(cfg)
+        out.append((lab, J.rule_J4(ctx, prog, lab)))
+        out.append((lab, M.rule_C1(ctx, prog, lab, rule='J3-C1')))
+        out.append((lab, B.rule_B1(ctx, prog, lab, rule='J3-B1')))
+        out.append((lab, B.rule_B2(ctx, prog, lab, rule='J3-B2')))
+        out.append((lab, CT.rule_F1(ctx, prog, lab, rule='J3-F1')))
+        out.append((lab, CR.rule_A1(ctx, prog, lab, rule='J3-A1')))
+    return out
+
+
+@prop('C14', level='other',
+      explanation=('E5: must-pass-through / control-dependence obligations on the two caches, in the configurations that compile them: a cached block '
+                   'that is handed out has its slot cleared on every path (no double hand-out), a slot is overwritten only when empty or after its '
+                   'old block was released, every path of m4ri_mmc_free caches or releases the block, cleanup covers the same slot range and '
+                   'm4ri_fini calls it, mzd_free releases data only for non-windows, an emptied header block is unlinked on both sides, is never '
+                   'the static block and is released. C5: fresh matrices are zeroed after any recycling. E1 (kinds): a permutation or matrix view '
+                   'is never released with the owner\'s destructor.'),
+      not_decided='behaviour over histories (eviction order, free-entry search, the 64-header block boundary): value/history level; the optional hook is not needed by this technique')
+def c14(ctx):
+    from . import resources as R, purity as P
+    out = []
+    h = frontend.host_config()
+    cfgs = [dict(h, mmc=1, mzdcache=1, openmp=0), frontend.thread_safe_configs()[0], frontend.openmp_configs()[0]]
+    if ctx.tier == 'thorough':
+        cfgs = frontend.legal_configs()
+    seen = set()
+    for cfg in cfgs:
+        if cfg_id(cfg) in seen:
+            continue
+        seen.add(cfg_id(cfg))
+        prog = _prog(ctx, cfg)
+        lab = _label(cfg)
+        out.append((lab, R.rule_E5(ctx, prog, lab)))
+        out.append((lab, P.rule_C5(ctx, prog, lab)))
+        out.append((lab, R.rule_E1(ctx, prog, lab, only_funcs={'mzd_init', 'mzd_init_window', 'mzd_free', 'mzd_t_malloc', 'mzd_t_free', '_mzd_ple', '_mzd_pluq',
+                                                                'mzd_ple', 'mzd_pluq', '_mzd_apply_p_right_even', 'mzp_init', 'mzp_free', 'mzp_init_window',
+                                                                'mzp_free_window', 'mzp_copy', 'm4ri_mmc_malloc', 'm4ri_mmc_free', 'm4ri_mmc_cleanup'}, rule='E1-alloc')))
+    return out
